@@ -127,7 +127,7 @@ func loadWorld(patterns []string) (*World, error) {
 		return nil, fmt.Errorf("%d load errors", nerr)
 	}
 	w.Pkgs = pkgs
-	prog, spkgs := ssautil.Packages(pkgs, ssa.InstantiateGenerics)
+	prog, spkgs := ssautil.Packages(pkgs, ssa.InstantiateGenerics|ssa.GlobalDebug)
 	w.Prog = prog
 	for i, sp := range spkgs {
 		if sp == nil {
